@@ -139,7 +139,11 @@ class C16(Prop):
             "size-1, size, size+1, 2^62, 2^63-1, i64::MIN, region boundaries +-1, multiples of 6; repeated and "
             "overlapping-key calls for the cache; to_int strings from a strtol grammar (spaces incl. \\v, sign, 0x/0 "
             "prefix, digits, junk, overflow boundaries) x bases {none,0,2,8,10,16,36,1,37,-1,2^32}.  Non-trivial: at "
-            "least one range call with a defined value and one undefined or clipped; distinct by (input, probes).")
+            "least one range call with a defined value and one undefined or clipped; distinct by (input, probes).  "
+            "Huge-input family (3 cases quick, 16 thorough): 17-40 MiB inputs described as pattern x repeat (expanded by "
+            "the harness, one slice or adjacent regions), one slice summing beyond 2^32, probes over whole periods for "
+            "mean, deviation, entropy, serial_correlation, monte_carlo_pi, count, percentage, mode, checksum32, expected "
+            "values from the closed forms of Spec/PeriodicSpec.v; the harness is a debug build (overflow checks on).")
     TRUSTED = ["Coq 8.16.1 kernel + vm_compute", "harness/src/bin/c16.rs (user module `probe` on boreal's public "
                "module API; no hook)", "vlib/props/c16.py (renders probes as YARA text and as Gallina terms, decodes "
                "f64 bits to m*2^e)", "boreal's parser/compiler/evaluator for literals and calls (they deliver the "
@@ -357,8 +361,69 @@ class C16(Prop):
         case["probes"] = probes
         return case
 
+    # ---- huge periodic inputs (sums beyond 2^32): described by pattern x repeat, expanded by the harness
+    HUGE_PATTERNS = ["ff", "ff00fffffeff", "ffffff000000b504f3b504f3", "ff80ff01ffffc0", "fe",
+                     "".join("%02x" % b for b in range(256)), "00ff", "fffffffffffe"]
+
+    def gen_huge(self, rng, idx):
+        pat = bytes.fromhex(self.HUGE_PATTERNS[0] if idx == 0 else rng.choice(self.HUGE_PATTERNS))
+        psum, plen = sum(pat), len(pat)
+        # one contiguous slice must sum to more than u32::MAX (and the total stays below ~40 MiB)
+        k = ((1 << 32) * rng.choice([104, 110, 125]) // 100) // psum + rng.range(1, 1000)
+        splits = None
+        if rng.chance(1, 3):
+            a = rng.range(1, 5000)
+            splits = rng.choice([[k - a, a], [a, k - a], [a, k - 2 * a, a]])
+        L = k * plen
+        spread = (min(pat) <= 0x40 and max(pat) >= 0xc0) or len(set(pat)) == 1
+        probes = []
+
+        def rng_range():
+            j = rng.below(8)
+            if j == 0:
+                return 0, L
+            if j == 1:
+                return 0, I64_MAX
+            if j == 2:
+                return 0, L - plen * rng.range(1, 50)
+            if j == 3:
+                a = rng.range(1, 50)
+                return plen * a, L
+            if j == 4:
+                a = rng.range(1, 50)
+                return plen * a, L - plen * a - plen * rng.range(0, 50)
+            if j == 5:
+                return rng.choice([L, L + plen, -plen]), plen * 4       # undefined
+            if j == 6:
+                return 0, rng.choice([plen * 6, plen * rng.range(1, 20), 0])   # small
+            return 0, L
+        fns = ["math.mean", "math.mean", "math.deviation", "math.entropy", "math.monte_carlo_pi", "math.count",
+               "math.percentage", "math.mode", "hash.checksum32"] + (["math.serial_correlation"] if spread else [])
+        for fn in fns + [rng.choice(fns) for _ in range(rng.range(1, 4))]:
+            o, n = rng_range() if probes else (0, L)
+            if fn == "math.deviation":
+                mu = [rng.choice([1020, 510, 4 * pat[0], 2 * psum * 2 // plen]), 4]
+                probes.append({"fn": fn, "args": [{"i": o}, {"i": n}, {"f": mu}]})
+            elif fn in ("math.count", "math.percentage"):
+                b = rng.choice([pat[0], pat[-1], 255, 0, 256, 7])
+                if splits is None and rng.chance(1, 4):
+                    probes.append({"fn": fn, "args": [{"i": b}]})
+                else:
+                    probes.append({"fn": fn, "args": [{"i": b}, {"i": o}, {"i": n}]})
+            elif fn == "math.mode" and rng.chance(1, 4):
+                probes.append({"fn": fn, "args": []})
+            else:
+                probes.append({"fn": fn, "args": [{"i": o}, {"i": n}]})
+        return {"huge": {"pattern": pat.hex(), "repeat": k, "splits": splits}, "mem": "", "layout": None,
+                "mode": "legacy", "probes": probes}
+
+    def n_huge(self, n):
+        return 3 if n <= 2000 else 16
+
     def generate(self, ctx, rng, n):
-        return [self.gen_case(rng.fork("c%d" % i)) for i in range(n)]
+        hr = rng.fork("huge")
+        huge = [self.gen_huge(hr.fork("h%d" % i), i) for i in range(self.n_huge(n))] if n >= 100 else []
+        return huge + [self.gen_case(rng.fork("c%d" % i)) for i in range(n)]
 
     def budget(self, tier):
         return 900 if tier == "quick" else 12000
@@ -375,7 +440,13 @@ class C16(Prop):
     # ---- execution
     def harness_case(self, case):
         hc = {"rules": render_rules(case["probes"]), "nprobes": len(case["probes"])}
-        if case.get("layout") is None:
+        if case.get("huge"):
+            h = case["huge"]
+            hc["input"] = {"fill": {"pattern": h["pattern"], "repeat": h["repeat"]}}
+            if h.get("splits"):
+                hc["input"]["fill"]["splits"] = h["splits"]
+                hc["params"] = {"mode": "legacy"}
+        elif case.get("layout") is None:
             hc["input"] = {"mem": case["mem"]}
         else:
             hc["input"] = {"regions": [{"start": r["start"], "hex": r["hex"], "fail": bool(r.get("fail")),
@@ -386,7 +457,8 @@ class C16(Prop):
     def execute(self, ctx, cases):
         outs = core.harness_run(ctx.binp, "c16", [self.harness_case(c) for c in cases])
         for c, o in zip(cases, outs):
-            ctx.count("input=" + ("direct" if c.get("layout") is None else
+            ctx.count("input=" + ("huge/%s" % ("fragmented" if c["huge"].get("splits") else "direct") if c.get("huge") else
+                                  "direct" if c.get("layout") is None else
                                   "fragmented/%s/%d regions" % (c.get("mode"), min(len(c["layout"]), 5))))
             vals = (o or {}).get("vals") or []
             for p, v in zip(c["probes"], vals):
@@ -409,6 +481,10 @@ class C16(Prop):
         else:
             return (False, False, 0)     # compile error, scan error, harness crash
         ps = glist(["(%s, %s)" % (FNS[p["fn"]][0], glist([g_arg(a) for a in p["args"]])) for p in case["probes"]])
+        if case.get("huge"):
+            h = case["huge"]
+            return "C16_huge_case %s %d %s %s %s" % (gbytes(bytes.fromhex(h["pattern"])), h["repeat"],
+                                                     gbool(bool(h.get("splits"))), ps, o)
         return "C16_case (%s) %s %s" % (g_mem(case), ps, o)
 
     def nontrivial(self, case, out):
@@ -422,12 +498,15 @@ class C16(Prop):
                     undefined += 1
                 else:
                     defined += 1
+        if case.get("huge") and defined:
+            return json.dumps([case["huge"], case["probes"]], sort_keys=True)
         if defined and undefined:
             return json.dumps([case["mem"], case.get("layout"), case.get("mode"), case["probes"]], sort_keys=True)
         return None
 
     def sample(self, case, out):
-        return {"input": {"mem": case["mem"], "layout": case.get("layout"), "mode": case.get("mode")},
+        return {"input": {"mem": case["mem"], "layout": case.get("layout"), "mode": case.get("mode"),
+                          "huge": case.get("huge")},
                 "rules": render_rules(case["probes"][:4]), "impl_first_values": (out or {}).get("vals", out)[:4]
                 if isinstance((out or {}).get("vals", None), list) else out}
 
